@@ -56,7 +56,7 @@ import (
 	apitypes "github.com/ethereum/go-ethereum/signer/core/apitypes"
 )
 
-func init() { props["C02"] = runC02 }
+func init() { props["C02"] = func(r *Rec) { runC02(r); recFor(r, "C02") } }
 
 // ---------------------------------------------------------------- symbolic vocabulary
 
